@@ -19,7 +19,7 @@ Definition c_bound_error (c : cursor) : error :=
 Definition c_window (c : cursor) (size : N) : res cursor :=
   match orig c with
   | None =>
-      if window_guard (c_len c) size then
+      if window_guard (pos c) (lim c) (c_len c) size then
         let e := window_end (pos c) size in
         (* get_unchecked(..e) on self.buf: requires e <= self.buf.len() *)
         if e <=? lim c then Ok (mkCursor e (pos c) (Some (lim c))) else UB
@@ -55,7 +55,7 @@ Section WithMsg.
 
   (* returns (offset-in-message, bytes) *)
   Definition c_slice (c : cursor) (size : N) : res (N * list byte * cursor) :=
-    if slice_guard (c_len c) size then
+    if slice_guard (pos c) (lim c) (c_len c) size then
       let lo := slice_lo (pos c) size in
       let hi := slice_hi (pos c) size in
       (* self.buf.get_unchecked(lo..hi): requires lo <= hi <= self.buf.len() *)
